@@ -1028,6 +1028,38 @@ def U1(ctx, rule="U1"):
         ctx.check(g2, rule, "end-guard|%s" % key, m.where(cb),
                   "READY is polled only while the done-sender is still held; afterwards the stream ends with Ready(None)",
                   "the poll of READY is not guarded by the done-sender being present: the stream cannot end (READY's sender is also held by the closure)")
+        # every explicit `Poll::Ready(None)` the poll function can return is on the arm where the done-sender is gone
+        # (or the countdown is 0): the stream never ends because of some other observation
+        for gb in [cb] + [x for x in grp if x.id != cb.id and x.kind == "fn"]:
+            for bb, si, s in gb.stmts():
+                if s["k"] != "assign" or s["rv"]["k"] != "agg" or s["rv"].get("def") != "std::task::Poll" or not s["rv"]["ops"]:
+                    continue
+                from analysis import expr_rvalue
+                v = expr_rvalue(gb, s["rv"], 0, (bb, si))
+                if not (v.kind == "agg" and v[3] == "Ready" and v[4]):
+                    continue
+                inner = strip_refs(v[4][0])
+                is_none = inner.kind == "agg" and (inner[2] or "").endswith("option::Option") and inner[3] == "None"
+                if not is_none:
+                    continue
+                if "Option<" not in (s["pl"].get("ty") or ""):
+                    continue
+                okn = False
+                for sb, vals in guards_of(gb, bb):
+                    de = switch_expr(gb, sb)
+                    if de.kind == "discr":
+                        roles = holder_roles(ctx, gb, strip_refs(de[1]))
+                        if "DONE" in roles and "1" not in vals:
+                            okn = True
+                for sb, x, rel in guard_eq_zero(gb, bb):
+                    if rel == "eq0" and not isinstance(x, str):
+                        srcs = sources_of_expr(ctx, gb, x, mode="prov")
+                        if any(q.kind == "alloc" and q[4] in NODE_COUNT_FNS for q in srcs):
+                            okn = True
+                ctx.check(okn, rule, "none-site|%s" % short(gb.id), m.where(gb, bb, si),
+                          "an explicit Ready(None) is returned only once the done-sender has been released (countdown reached 0 / empty graph)",
+                          "the stream's poll function can return Ready(None) while the done-sender is still held and the countdown has not reached 0: "
+                          "the stream ends before every function was yielded")
     ctx.floor(rule, 6, "end-of-stream obligations")
 
 
